@@ -112,6 +112,18 @@ func waitProc(cmd *exec.Cmd, so, se *bytes.Buffer, d time.Duration) (procResult,
 	}
 }
 
+// blockedOnPipe reports whether a thread of the process sleeps in a write
+// to a pipe (wchan of the task, as the kernel names it).
+func blockedOnPipe(pid int) bool {
+	tasks, _ := filepath.Glob(fmt.Sprintf("/proc/%d/task/*/wchan", pid))
+	for _, t := range tasks {
+		if b, err := os.ReadFile(t); err == nil && strings.Contains(string(b), "pipe") && strings.Contains(string(b), "write") {
+			return true
+		}
+	}
+	return false
+}
+
 type session struct {
 	pid        int
 	begin, end int64
@@ -309,49 +321,19 @@ func oracleC12(c *props.Case) props.Verdict {
 		}
 	}
 	parked := false
-	var lastSize int64
-	lastChange := time.Now()
 	deadline := time.Now().Add(40 * time.Second)
 	for time.Now().Before(deadline) {
 		if _, err := os.Stat(mark); err == nil {
 			parked = true
 			break
 		}
-		if ls.Tail {
-			// The holder may also block on its full output pipe in the
-			// middle of the session (a warning printed while it computes
-			// the changes): the dialogue then stands still.
-			if st, err := os.Stat(le.transcript); err == nil {
-				if st.Size() != lastSize {
-					lastSize, lastChange = st.Size(), time.Now()
-				} else if st.Size() > 0 && time.Since(lastChange) > 1500*time.Millisecond {
-					select {
-					case <-holderDone:
-					default:
-						parked = true
-					}
-					if parked {
-						break
-					}
-				}
-			}
-			// the device session of the holder is over, the holder is not
-			done := false
-			for _, ev := range dlg.ReadTranscript(le.transcript) {
-				done = done || ev.Ev == "end"
-			}
-			if done {
-				// give it a moment to reach (and block in) its first write
-				time.Sleep(150 * time.Millisecond)
-				select {
-				case <-holderDone:
-				default:
-					parked = true
-				}
-				if parked {
-					break
-				}
-			}
+		if ls.Tail && blockedOnPipe(holder.Process.Pid) {
+			// The holder sleeps in a write to its full output pipe (after
+			// its session, or in the middle of it when it prints a warning
+			// while computing the changes): it holds the lock and will not
+			// go on until the pipe is drained.
+			parked = true
+			break
 		}
 		select {
 		case <-holderDone:
@@ -407,7 +389,8 @@ func oracleC12(c *props.Case) props.Verdict {
 		if n := len(sessions(dlg.ReadTranscript(le.transcript))); n != nSess {
 			return fail("contender-talked-to-device", "a refused contender opened a session on the device")
 		}
-		if d := dlg.DiffSnapshots(before, dlg.Snapshot(watched...)); len(d) > 0 {
+		// (In tail mode the holder itself may still be writing its files.)
+		if d := dlg.DiffSnapshots(before, dlg.Snapshot(watched...)); len(d) > 0 && !ls.Tail {
 			return fail("contender-touched-files", "a refused contender touched status/history/log files: %v", d)
 		}
 		classes = append(classes, "c12:contender:"+inv.Front+":"+inv.Verb+":"+inv.Spell)
